@@ -8,10 +8,14 @@ EXTENDS BclISA, FiniteSets, TLC, Json
 Batch == ndJsonDeserialize("dumps.ndjson")
 VARIABLES k, pc, depth, bdepth, halted, prog, bnd, dmap
 vars == <<k, pc, depth, bdepth, halted, prog, bnd, dmap>>
-Init == /\ k \in 1..Len(Batch) /\ pc = 0 /\ depth = 0 /\ bdepth = 0 /\ halted = FALSE
-        /\ prog = DecodeProg(Batch[k].dump) /\ bnd = Boundaries(prog.code, 0, {})
-        /\ dmap = Flow(prog.code, bnd, << [pc |-> 0, d |-> 0, b |-> 0] >>, <<>>)
-Step == /\ ~halted /\ pc \in bnd
+\* decoding happens in a Next step (worker threads have the large stacks the recursive decoders need), not in Init
+NoProg == [magicOk |-> FALSE, minor |-> 0, name |-> <<>>, code |-> <<>>, consts |-> <<>>, positions |-> <<>>, lfs |-> <<>>, end |-> 0]
+Init == /\ k \in 1..Len(Batch) /\ pc = -1 /\ depth = 0 /\ bdepth = 0 /\ halted = FALSE
+        /\ prog = NoProg /\ bnd = {} /\ dmap = <<>>
+Load == /\ pc = -1 /\ pc' = 0 /\ UNCHANGED <<k, depth, bdepth, halted>>
+        /\ prog' = DecodeProg(Batch[k].dump) /\ bnd' = Boundaries(prog'.code, 0, {})
+        /\ dmap' = Flow(prog'.code, bnd', << [pc |-> 0, d |-> 0, b |-> 0] >>, <<>>)
+Step == /\ ~halted /\ pc >= 0 /\ pc \in bnd
         /\ LET code == prog.code ins == Instr(code, pc) IN
            /\ depth' = depth + Effect(ins)
            /\ bdepth' = bdepth + (IF ins.op = "DEFBLOCK" THEN 1 ELSE IF ins.op = "ENDBLOCK" THEN -1 ELSE 0)
@@ -20,13 +24,13 @@ Step == /\ ~halted /\ pc \in bnd
               \/ pc' = pc + ins.len + ins.a /\ ins.op = "JFALSE"
               \/ pc' = pc /\ ins.op = "RET"
         /\ UNCHANGED <<k, prog, bnd, dmap>>
-Spec == Init /\ [][Step]_vars
-WellFormed ==
+Spec == Init /\ [][Load \/ Step]_vars
+WellFormed == pc >= 0 =>
   /\ TileEnd(prog.code, 0) = Len(prog.code)             \* the instructions tile the code exactly
   /\ pc \in bnd                                          \* every path stays on instruction boundaries inside the code
   /\ InstrOk(prog, pc, depth, bdepth)
 \* the depth is a function of the offset: all paths into an instruction agree
-Unique == pc \in DOMAIN dmap /\ depth = dmap[pc].d /\ bdepth = dmap[pc].b
+Unique == pc >= 0 => pc \in DOMAIN dmap /\ depth = dmap[pc].d /\ bdepth = dmap[pc].b
 RoundTrip ==
   pc = 0 => LET bs == Batch[k].dump p == prog IN
             /\ p.magicOk /\ p.end = Len(bs) + 1 /\ EncodeProg(p) = bs
